@@ -256,7 +256,7 @@ class PShape(Shape):
             assert sum(row.values()) == 1, (k, row)
 
 
-def build_pomdp(sx, sh, rew, obs_override=None):
+def build_pomdp(sx, sh, rew, obs_override=None, observation_list=None):
     """a TabularPOMDP subclass instance whose methods read the shape's tables"""
     from msdm.core.pomdp import TabularPOMDP
     from msdm.core.distributions import DictDistribution
@@ -286,6 +286,8 @@ def build_pomdp(sx, sh, rew, obs_override=None):
 
         def observation_dist(self, a, ns):
             return DictDistribution({OL[o]: p for o, p in obs[(ai[a], si[ns])].items()})
+    if observation_list is not None:
+        P.observation_list = list(observation_list)      # declared explicitly (as LoadUnload does), in the given order
     return P()
 
 
